@@ -156,3 +156,53 @@ Qed.
 (* results collected task by task, in task order, are the per-sentence results in input order *)
 Theorem collect_in_order {A B} (f : A -> B) (l : list A) k : concat (map (map f) (chunks l k)) = map f l.
 Proof. rewrite <- concat_map. now rewrite chunks_concat. Qed.
+
+(* ---------- search results can always be retrieved: rule indices of licensed derivations are valid cache indices ---------- *)
+Section RetrieveLicensed.
+Variable catof : nat -> cat.
+Variable binres : nat -> nat -> list cres.
+Variable unres : nat -> list cres.
+Variable toks : list token.
+Variable n : nat.
+Variable adm : nat -> list nat.
+Variable bin : nat -> nat -> list (nat * bool).
+Variable un : nat -> list nat.
+(* the id-level grammar the search saw is the cached result lists, position by position *)
+Hypothesis bin_coherent : forall x y k c hl, nth_error (bin x y) k = Some (c, hl) ->
+  exists res, nth_error (binres x y) k = Some res /\ head_is_left res = hl /\ rcat res = catof c.
+Hypothesis un_coherent : forall x k c, nth_error (un x) k = Some c ->
+  exists res, nth_error (unres x) k = Some res /\ rcat res = catof c.
+Hypothesis toks_len : length toks = n.
+
+Lemma licensed_span d : licensed n adm bin un d -> (1 <= dlen d /\ dstart d + dlen d <= n)%nat.
+Proof.
+  induction 1 as [i c Hi Hc | k c d Hd IH Hn Hs | k c hl l r Hl IHl Hr IHr Hadj Hn]; simpl; lia.
+Qed.
+
+Theorem licensed_retrievable d : licensed n adm bin un d ->
+  exists t, Built catof binres unres toks d (dstart d) t /\ tcat t = catof (dcat d) /\
+            match d, t with
+            | DBin _ _ hl _ _, Bin _ _ _ h _ _ => h = hl
+            | _, _ => True
+            end.
+Proof.
+  induction 1 as [i c Hi Hc | k c d Hd IH Hn Hs | k c hl l r Hl IHl Hr IHr Hadj Hn].
+  - assert (Ht : exists tk, nth_error toks i = Some tk).
+    { destruct (nth_error toks i) eqn:E; [eauto|]. apply nth_error_None in E. lia. }
+    destruct Ht as [tk Ht]. exists (Leaf (catof c) tk s_lex s_lexsym). simpl. split; [now constructor | tauto].
+  - destruct IH as (t & Hb & Hc & _). destruct (un_coherent _ _ _ Hn) as (res & Hres & _).
+    exists (Un (catof c) (op_string res) (op_symbol res) t). simpl. split; [econstructor; eassumption | tauto].
+  - destruct IHl as (tl & Hbl & _). destruct IHr as (tr & Hbr & _).
+    destruct (bin_coherent _ _ _ _ _ Hn) as (res & Hres & Hh & _).
+    exists (Bin (catof c) (op_string res) (op_symbol res) (head_is_left res) tl tr). simpl. split; [|tauto].
+    econstructor; [exact Hbl | rewrite <- Hadj; exact Hbr | exact Hres].
+Qed.
+
+Corollary complete_retrieve d : licensed n adm bin un d -> dstart d = 0 -> dlen d = n ->
+  exists t, retrieve catof binres unres toks d = Some t /\ tokens t = toks.
+Proof.
+  intros Hl Hs Hn. destruct (licensed_retrievable d Hl) as (t & Hb & _). rewrite Hs in Hb.
+  exists t. unfold retrieve. rewrite (built_tree_of catof binres unres toks d 0 t Hb). split; [reflexivity|].
+  destruct (built_tokens catof binres unres toks d 0 t Hb) as [Ht _]. rewrite Ht. simpl. rewrite Hn, <- toks_len. apply firstn_all.
+Qed.
+End RetrieveLicensed.
